@@ -224,12 +224,13 @@ Proof.
 Qed.
 
 Theorem check_run_invariant : forall c,
-  1 <= pc_n c -> disk_okb (pc_table c) (pc_disk c) = true -> check c = true ->
+  1 <= pc_n c -> check c = true ->
   exists st0 st, init_pstate c = Some st0 /\ start_ok (pc_table c) (pc_n c) st0 /\
     paccept_run (pc_table c) st0 (pc_events c) = Some st /\ pinv (pc_table c) st.
 Proof.
-  intros c Hn Hd Hc. unfold check in Hc. destruct (init_pstate c) as [st0|] eqn:I; [|discriminate].
-  apply andb_true_iff in Hc. destruct Hc as [Hc _]. apply andb_true_iff in Hc. destruct Hc as [_ Hc].
+  intros c Hn Hc. unfold check in Hc. destruct (init_pstate c) as [st0|] eqn:I; [|discriminate].
+  apply andb_true_iff in Hc. destruct Hc as [Hc _]. apply andb_true_iff in Hc. destruct Hc as [Hc Hr].
+  apply andb_true_iff in Hc. destruct Hc as [Hd _].
   destruct (paccept_run (pc_table c) st0 (pc_events c)) as [st|] eqn:R; [|discriminate].
   destruct (init_pstate_start_ok c st0 Hn (disk_okb_ok _ _ Hd) I) as [Hs _].
   exists st0, st. split; [reflexivity|]. split; [exact Hs|]. split; [exact R|].
